@@ -7,7 +7,7 @@ from terms import to_coq
 VERIF = os.path.dirname(os.path.dirname(os.path.abspath(__file__)))
 COQ = os.path.join(VERIF, "coq")
 BUILD = os.path.join(VERIF, ".build")
-REPO = "/repo"
+REPO = os.environ.get("VERIF_REPO", "/repo")   # VERIF_REPO: only for the coordinator's isolated mutation runs (lib/mutrun.sh)
 GOENV = dict(os.environ, GOFLAGS="-mod=mod", GOPROXY="off", GOSUMDB="off", GOTOOLCHAIN="local")
 ALLOWED_AXIOMS = set()   # stdlib axioms a theorem may use; each listed in the trusted base if used
 
